@@ -185,14 +185,16 @@ Proof. eexists. split; [vm_compute; reflexivity|]. repeat split; vm_compute; ref
    field constraints of the message and then the embedded messages of every populated
    field, recursively (model/RulesNestedSem.v validate_tree); [rule_tree] is the declared
    meaning: every property satisfies its rules, and so does every embedded message of an
-   inline type, recursively. For trees of objects whose properties are evaluable: *)
+   inline type, recursively; for a oneof of the tree (root or inline) its options are
+   members (C12_oneof_members above; [c12_view] gives the fields of oneof messages their
+   presence). For trees whose properties are evaluable: *)
 Theorem C12_nested :
   forall re_ok re_match pat_sem, engine_ok re_ok re_match pat_sem ->
   forall env s path name m v,
     wf_env env = true -> tree_evaluable re_ok s = true ->
     write_schema env path name s = Ok m -> typed_tree s v = true ->
-    (validate_tree re_ok re_match (defined_numbers env) m v = VAccept <-> rule_tree pat_sem env s v) /\
-    (validate_tree re_ok re_match (defined_numbers env) m v = VReject <-> ~ rule_tree pat_sem env s v).
+    (validate_tree re_ok re_match (defined_numbers env) (c12_view m) v = VAccept <-> rule_tree pat_sem env s v) /\
+    (validate_tree re_ok re_match (defined_numbers env) (c12_view m) v = VReject <-> ~ rule_tree pat_sem env s v).
 Proof.
   intros re_ok re_match pat_sem He env s path name m v Hwf Hev Hw Hty.
   exact (c12_tree re_ok re_match pat_sem (proj1 He) (proj1 (proj2 He)) (engine_id62_bool re_ok re_match pat_sem He)
@@ -218,13 +220,13 @@ Example C12_nested_example :
   let env := EE [] None [] in
   exists m, write_schema env [] [70;111;111] s = Ok m /\
     tree_evaluable re_frag_ok s = true /\
-    validate_tree re_frag_ok re_frag_match (defined_numbers env) m
+    validate_tree re_frag_ok re_frag_match (defined_numbers env) (c12_view m)
       (MV [FOne (VInt 3); FOne (VMsg 1)] [[MV [FOne (VStr [97;98])] []]]) = VAccept /\
-    validate_tree re_frag_ok re_frag_match (defined_numbers env) m
+    validate_tree re_frag_ok re_frag_match (defined_numbers env) (c12_view m)
       (MV [FOne (VInt 3); FOne (VMsg 1)] [[MV [FOne (VStr [97])] []]]) = VReject /\
-    validate_tree re_frag_ok re_frag_match (defined_numbers env) m
+    validate_tree re_frag_ok re_frag_match (defined_numbers env) (c12_view m)
       (MV [FOne (VInt 3); FAbsent] [[]]) = VAccept /\
-    validate_tree re_frag_ok re_frag_match (defined_numbers env) m
+    validate_tree re_frag_ok re_frag_match (defined_numbers env) (c12_view m)
       (MV [FOne (VInt 9); FOne (VMsg 1)] [[MV [FOne (VStr [97;98])] []]]) = VReject.
 Proof.
   eexists. split; [vm_compute; reflexivity|]. repeat split; vm_compute; reflexivity.
